@@ -82,7 +82,7 @@ Truths(fam) == CASE fam = "K" -> TruthsK [] fam = "H" -> TruthsHOK [] fam = "C" 
 Vars(fam) == IF Wide THEN AllVars ELSE
              CASE fam = "H" -> [AllVars EXCEPT !.hrs = {TRUE}, !.tabs = {FALSE}]
                [] fam = "C" -> [AllVars EXCEPT !.trails = {FALSE}, !.eols = {"lf"}, !.boms = {FALSE}]
-               [] fam = "P" -> [AllVars EXCEPT !.trails = {FALSE}, !.eols = {"crlf"}, !.boms = {TRUE}, !.hrs = {FALSE}, !.tabs = {FALSE}]
+               [] fam = "P" -> [AllVars EXCEPT !.trails = {FALSE}, !.eols = {"crlf"}, !.boms = {TRUE}, !.hrs = {FALSE}, !.tabs = {FALSE}, !.textids = {TRUE}]
                [] fam = "K" -> [AllVars EXCEPT !.trails = {FALSE}, !.eols = {"lf"}, !.boms = {FALSE}, !.hrs = {FALSE}, !.tabs = {FALSE}]
                [] fam = "N" -> [AllVars EXCEPT !.trails = {FALSE}, !.eols = {"lf"}, !.boms = {FALSE}, !.hrs = {FALSE}, !.tabs = {FALSE}]
 
